@@ -83,15 +83,15 @@ static void rt_case(long long c)
 	uint32_t rate = rates[vh_below(&r, 8)];
 	if (vh_below(&r, 3) == 0 || rate > maxrate || rate < minrate)
 		rate = (uint32_t)(minrate + (vh_next(&r) % (maxrate - minrate + 1)));
-	/* frames: data size + 58 must fit in 32 bits */
-	uint64_t maxframes = (0xffffffffull - 64) / ba;
+	/* frames: the RIFF size (header bytes after the size field + data) must fit in 32 bits - exactly */
+	uint64_t maxframes = (0xffffffffull - (format == RF_WAVHEADER_FLOAT ? 50 : 36)) / ba;
 	uint32_t frames, frames_first;
 	switch (vh_below(&r, 6)) {
 	case 0: frames = 0; break;
 	case 1: frames = 1; break;
 	case 2: frames = 2; break;
 	case 3: frames = 1000; break;
-	case 4: frames = (uint32_t)maxframes; break;
+	case 4: frames = (uint32_t)(maxframes - vh_below(&r, 3)); break; /* the largest counts that fit */
 	default: frames = (uint32_t)(vh_next(&r) % (maxframes + 1)); break;
 	}
 	if (frames > maxframes)
@@ -249,8 +249,9 @@ static void put16(hdr_t *h, uint32_t v)
 static void build(hdr_t *h, int kind, vh_rng_t *r, bool random_skip_bytes)
 {
 	memset(h, 0, sizeof(*h));
-	uint32_t fmt_size = kind == 0 ? 16 : kind == 1 ? 18 : kind == 2 || kind == 5 ? 40 : kind == 4 ? 17 : 18 + vh_below(r, 40);
-	uint32_t cb = (kind == 2 || kind == 5) ? 22 : kind == 1 ? 0 : vh_below(r, 60);
+	uint32_t fmt_size = kind == 0 ? 16 : kind == 1 ? 18 : kind == 2 || kind == 5 ? 40 : kind == 4 ? 17 :
+			    kind == 6 ? 18 + vh_below(r, 60) : 18 + vh_below(r, 40);
+	uint32_t cb = (kind == 2 || kind == 5 || kind == 6) ? 22 : kind == 1 ? 0 : vh_below(r, 60);
 	if (kind == 3 && cb == 22)
 		cb = 23;
 	bool fact = kind == 1 || kind == 5 || (kind == 3 && vh_below(r, 2));
@@ -263,7 +264,7 @@ static void build(hdr_t *h, int kind, vh_rng_t *r, bool random_skip_bytes)
 	put(h, "fmt ", 4);
 	h->off_fmt_size = h->n;
 	put32(h, fmt_size);
-	put16(h, kind == 1 ? 3 : (kind == 2 || kind == 5) ? 0xfffe : 1);
+	put16(h, kind == 1 ? 3 : (kind == 2 || kind == 5 || kind == 6) ? 0xfffe : 1);
 	put16(h, chs);
 	put32(h, rate);
 	put32(h, rate * chs * bytes);
@@ -351,11 +352,12 @@ static void dec_case(long long c)
 	vh_case_key(key);
 	vh_case_replay("--extra dec --only-case %lld", c);
 	static hdr_t h;
-	int kind = (int)(c % 6);
+	int kind = (int)(c % 7);
 	bool rnd_skip = vh_below(&r, 2);
 	build(&h, kind, &r, rnd_skip);
 	static const char *const kinds[] = { "PCM fmt=16", "float+fact fmt=18", "extensible fmt=40 cb=22",
-					     "fmt>=18 with skipped extension bytes", "PCM fmt=17", "extensible+fact" };
+					     "fmt>=18 with skipped extension bytes", "PCM fmt=17", "extensible+fact",
+					     "cb=22 with fmt size other than 40" };
 	uint8_t *in = malloc(h.n);
 	memcpy(in, h.b, h.n);
 	char hx[400];
@@ -562,7 +564,7 @@ static void fuzz_case(long long c)
 		if (acc)
 			truncations(h.b, ret, "random-bytes");
 	} else {
-		int kind = (int)vh_below(&r, 6);
+		int kind = (int)vh_below(&r, 7);
 		build(&h, kind, &r, true);
 		size_t n = h.n;
 		const char *what = "valid-header";
